@@ -84,6 +84,9 @@ func (p *Proof) Verify(public Public, hash *hash.Hash, pl *pool.Pool) bool {
 	if err := pedersen.ValidateParameters(public.Aux.N(), public.Aux.S(), public.Aux.T()); err != nil {
 		return false
 	}
+	if !p.IsValid(public) {
+		return false
+	}
 
 	n, s, t := public.Aux.N().Big(), public.Aux.S().Big(), public.Aux.T().Big()
 
